@@ -20,7 +20,7 @@ from circuits.core.handlers import handler as H
 from vlib import driver
 from vlib.runner import Prop, Result
 
-EV_PRIOS = [0, 0, 1, -1, 3.5, -2.5, 5, 0.5]
+EV_PRIOS = [0, 0, 1, -1, 3.5, -2.5, 5, 0.5, 1e-05, -1e-05, 0.99999]      # incl. values closer together than any event counter step
 H_PRIOS = [0, 1, -1, 2.5, -3]
 MAX_H = 3
 
@@ -74,7 +74,7 @@ class C02(Prop):
     id = 'C02'
     rule = ('programs of nested prioritised fires (hypothesis-generated trees of events; 1-3 handlers per event with '
             'priorities from {0,1,-1,2.5,-3}, optional stop(), optional recursive flush(), optional raise after stop; children '
-            'fired with priorities from {0,1,-1,3.5,-2.5,5,0.5}; extra waves fired between ticks; priority-0 events optionally fired without a priority argument; two-channel fires) executed under tick() and '
+            'fired with priorities from {0,1,-1,3.5,-2.5,5,0.5,1e-05,-1e-05,0.99999}; extra waves fired between ticks; priority-0 events optionally fired without a priority argument; two-channel fires) executed under tick() and '
             'under real run(); non-trivial = >=2 passes, >=2 distinct event priorities inside one pass, and a child fired with '
             'a lower priority value than an event still waiting in the running pass; plus enumerated backlogs of 10..5000 (thorough 70000) events queued before one flush pass; distinct = distinct spec hash')
     assumptions = ('order among handlers of equal priority is unspecified and not asserted',
